@@ -144,6 +144,14 @@ theorem frame_plane_sizes (frame : List Nat) (w h : Nat) (y u v : List Nat) (hd 
     y.length = w * h ∧ u.length = ((w + 1) / 2) * ((h + 1) / 2) ∧ v.length = ((w + 1) / 2) * ((h + 1) / 2) :=
   Vp8FrameProof.plane_sizes frame w h y u v hd
 
+
+/-- the macroblock loop of the whole-frame model decodes exactly `rows x mbw` macroblocks, one per
+    position in raster order (so the loop-filter stage, which looks macroblock `k` up in that list,
+    finds every one) -/
+theorem frame_visits_every_macroblock (h : Vp8Header.Hdr) (tp : Array Nat) (mbw nparts rows mby : Nat) (s s' : Vp8Frame.St)
+    (e : Vp8Frame.frameLoop h tp mbw nparts rows mby s = some s') : s'.mbs.size = s.mbs.size + rows * mbw :=
+  Vp8FrameProof.frameLoop_size h tp mbw nparts rows mby s s' e
+
 /-! ### residue addition -/
 
 /-- **`add_residue` is `clamp(prediction + residue)`.** For every workspace, residue block (any
